@@ -38,7 +38,7 @@ def main():
 
 
 def run(in_repo):
-    ids = sys.argv[1:] or sorted(d for d in os.listdir(os.path.join(V, "seeded")) if os.path.isdir(os.path.join(V, "seeded", d)))
+    ids = sys.argv[1:] or sorted(d for d in os.listdir(os.path.join(V, "seeded")) if os.path.isfile(os.path.join(V, "seeded", d, "meta.json")))
     rows = []
     if sh(["git", "-C", R, "status", "--porcelain", "--untracked-files=no"]).stdout.strip():
         sys.exit("tracked files of %s are modified: refusing to run" % R)
